@@ -26,6 +26,30 @@ WORDS = [
     "kind", "thing", "that", "matters", "when", "running", "fast", "slow", "route", "engine",
     "widget", "colour", "level", "depth", "margin", "weight", "signal",
 ]
+# prose that talks about code: Python keywords as plain English words ("the base class", "every def below"), used by the
+# program generator for docstrings and comments (enabled with `extra_words`)
+CODE_WORDS = ["class", "def", "base class", "the parent class", "plain def", "return", "import", "lambda", "async",
+              "class of", "def of", "which class", "from", "with", "pass"]
+EXTRA = []
+
+
+class extra_words(object):
+    """context manager: widen the prose vocabulary of rand_doc / docgen.sentence"""
+
+    def __init__(self, words):
+        self.words = list(words)
+
+    def __enter__(self):
+        EXTRA.extend(self.words)
+
+    def __exit__(self, *a):
+        del EXTRA[len(EXTRA) - len(self.words):]
+
+
+def vocab():
+    return WORDS + EXTRA if EXTRA else WORDS
+
+
 TRIGGER_PHRASES = [
     "number of items", "whether to shuffle", "path to the data", "string to print", "list of things",
     "integer count", "float value", "dict with settings", "one of these or those", "boolean flag",
@@ -44,7 +68,7 @@ DEFAULT_KINDS = (
 
 def rand_doc(r, n=None, trigger=False, multiline=False, stop=None, long=False):
     n = n or (r.randint(18, 40) if long else r.randint(1, 6))  # long: wraps under word_wrap (> 80/100 columns)
-    words = [r.choice(WORDS) for _ in range(n)]
+    words = [r.choice(vocab()) for _ in range(n)]
     if trigger:
         words.insert(r.randint(0, len(words)), r.choice(TRIGGER_PHRASES))
     doc = " ".join(words)
@@ -70,6 +94,8 @@ def make_type(r, kind):
         return "Union[%s]" % ", ".join(r.sample(SCALARS, 2))
     if kind == "dotted":
         return r.choice(DOTTED)
+    if kind == "complex":
+        return "complex"
     if kind == "dict":
         return "dict"
     if kind == "listbare":
@@ -108,6 +134,8 @@ def make_default(r, typ, dkind):
         "str": {"str": ["hello", "mnist", "a_b", "r", ",", "ab", "0", "\u00e9"], "strspace": ["x y"], "strtilde": ["~/dir"], "strdot": ["a.b"],
                 "emptystr": [""]},
         "bool": {"bool": [True, False]},
+        # a default whose text only reads correctly once the type is known ('1j' is no int / float / bool literal)
+        "complex": {"imag": [1j, 2.5j, 3j]},
     }
     vals = table.get(base, {}).get(dkind)
     return r.choice(vals) if vals else None
@@ -126,6 +154,8 @@ def admissible_default_kinds(typ):
         out += ["str", "strspace", "strtilde", "strdot", "emptystr"]
     elif base == "bool":
         out += ["bool"]
+    elif base == "complex":
+        out += ["imag"]
     elif base.startswith("Literal["):
         out += ["str"]
     elif base.startswith("Union["):
@@ -166,6 +196,8 @@ def default_kind_of(p):
         return "bool"
     if isinstance(d, int):
         return "zero" if d == 0 else ("negint" if d < 0 else "int")
+    if isinstance(d, complex):
+        return "imag"
     if isinstance(d, float):
         return "negfloat" if d < 0 else ("smallfloat" if "e" in repr(d) else "float")
     if isinstance(d, str):
@@ -186,7 +218,7 @@ def default_kind_of(p):
 def type_kind_of(typ):
     if typ is None:
         return "notype"
-    if typ in SCALARS:
+    if typ in SCALARS or typ == "complex":
         return typ
     for pre, k in (("Optional[", "optional"), ("Literal[", "literal"), ("List[", "list"), ("Union[", "union")):
         if typ.startswith(pre):
